@@ -90,8 +90,9 @@ def _lookup_block(name, rng, labels):
             b.add_track(gen.ft_track(rng, n, lab=l))
     elif name == "EMG":
         b = gen.emg(rng, 0, n)
-        for l in labels:
-            b.addSignal(gen.emg_track(rng, n, lab=l))
+        chans = rng.sample(range(0, 3 * len(labels) + 3), len(labels))          # any order: storage order is what counts
+        for l, ch in zip(labels, chans):
+            b.addSignal(gen.emg_track(rng, n, lab=l), channel=ch)
     else:
         from basictdf.tdfEvents import TemporalEventsData, Event, EventsDataType
         b = TemporalEventsData()
@@ -103,66 +104,121 @@ def _lookup_block(name, rng, labels):
 LABEL_SETS = [[], ["a"], ["a", "b", "a"], ["", "x", ""], ["Ab", "ab", " ab", "ab "], ["k", "k", "k", "k"], ["€", "e", "€"], ["x", "y", "z", "x", "y"]]
 
 
+def _coherence(name, b, labels, case, seed, when=""):
+    """the C18 clauses on one block as it is now: len / iteration / positions / labels / membership / key types / frame"""
+    fails = []
+    items = list(getattr(b, LOOKUP[name][0]))
+    before = _snapshot(name, b)
+    w = (when + ": ") if when else ""
+    try:
+        it = list(iter(b))
+        if len(b) != len(it) or len(it) != len(items) or any(x is not y for x, y in zip(it, items)):
+            fails.append(_f("C18", "C18.len_iter", name, f"{w}len {len(b)} / iteration {len(it)} / items {len(items)} disagree", case, seed))
+        for i in range(-len(items) - 2, len(items) + 2):
+            try:
+                r = b[i]
+                ok = -len(items) <= i < len(items) and r is it[i] and r is items[i]
+            except IndexError:
+                ok = not (-len(items) <= i < len(items))
+            if not ok:
+                fails.append(_f("C18", "C18.index", name, f"{w}b[{i}] is not the {i}-th iterated item / wrong IndexError behaviour", case, seed))
+        for key in sorted(set(labels + [x.label for x in items] + ["nope", "A", "a ", ""])):
+            first = next((x for x in it if x.label == key), None)
+            try:
+                r = b[key]
+                ok = first is not None and r is first
+                found = True
+            except KeyError:
+                ok = first is None
+                found = False
+            if not ok:
+                fails.append(_f("C18", "C18.label", name, f"{w}b[{key!r}] does not return the first item with that label / wrong KeyError behaviour", case, seed))
+            if (key in b) != found:
+                fails.append(_f("C18", "C18.contains", name, f"{w}{key!r} in b is {key in b} but lookup {'succeeds' if found else 'raises KeyError'}", case, seed))
+        for bad in (1.5, None, (1,), b"a", [0]):
+            try:
+                b[bad]
+                fails.append(_f("C18", "C18.keytype", name, f"{w}b[{bad!r}] did not raise TypeError", case, seed))
+            except TypeError:
+                pass
+            except Exception as e:
+                fails.append(_f("C18", "C18.keytype", name, f"{w}b[{bad!r}] raised {e!r} instead of TypeError", case, seed))
+        # membership supports labels and item objects only: every other key type (positions included) is refused
+        for bad in (0, 1, -1, len(items), 1.5, None, (1,), b"a", True):
+            try:
+                r = bad in b
+                fails.append(_f("C18", "C18.keytype", name, f"{w}`{bad!r} in b` returned {r} instead of raising TypeError", case, seed))
+            except TypeError:
+                pass
+            except Exception as e:
+                fails.append(_f("C18", "C18.keytype", name, f"{w}`{bad!r} in b` raised {e!r} instead of TypeError", case, seed))
+        for x in items:
+            if x not in b:
+                fails.append(_f("C18", "C18.contains_item", name, f"{w}an item of the block is reported as not contained", case, seed))
+    except Exception as e:
+        fails.append(_f("C18", "C18.exception", name, f"{w}unexpected {e!r}", case, seed))
+    if _snapshot(name, b) != before or list(getattr(b, LOOKUP[name][0])) != items:
+        fails.append(_f("C18", "C18.frame", name, f"{w}a lookup operation changed the block", case, seed))
+    return fails
+
+
 def check_c18(seed, tier):
     fails, n = [], 0
     for name in LOOKUP:
         for li, labels in enumerate(LABEL_SETS):
             rng = random.Random(f"{seed}:c18:{name}:{li}")
             b = _lookup_block(name, rng, labels)
-            items = list(getattr(b, LOOKUP[name][0]))
             case = dict(block=name, labels=labels)
             n += 1
-            before = _snapshot(name, b)
-            try:
-                it = list(iter(b))
-                if len(b) != len(it) or len(it) != len(items) or any(x is not y for x, y in zip(it, items)):
-                    fails.append(_f("C18", "C18.len_iter", name, f"len {len(b)} / iteration {len(it)} / items {len(items)} disagree", case, seed))
-                for i in range(-len(items) - 2, len(items) + 2):
-                    try:
-                        r = b[i]
-                        ok = -len(items) <= i < len(items) and r is items[i]
-                    except IndexError:
-                        ok = not (-len(items) <= i < len(items))
-                    if not ok:
-                        fails.append(_f("C18", "C18.index", name, f"b[{i}] is not the {i}-th iterated item / wrong IndexError behaviour", case, seed))
-                for key in sorted(set(labels + ["nope", "A", "a ", ""])):
-                    first = next((x for x in items if x.label == key), None)
-                    try:
-                        r = b[key]
-                        ok = first is not None and r is first
-                        found = True
-                    except KeyError:
-                        ok = first is None
-                        found = False
-                    if not ok:
-                        fails.append(_f("C18", "C18.label", name, f"b[{key!r}] does not return the first item with that label / wrong KeyError behaviour", case, seed))
-                    if (key in b) != found:
-                        fails.append(_f("C18", "C18.contains", name, f"{key!r} in b is {key in b} but lookup {'succeeds' if found else 'raises KeyError'}", case, seed))
-                for bad in (1.5, None, (1,), b"a", [0]):
-                    try:
-                        b[bad]
-                        fails.append(_f("C18", "C18.keytype", name, f"b[{bad!r}] did not raise TypeError", case, seed))
-                    except TypeError:
-                        pass
-                    except Exception as e:
-                        fails.append(_f("C18", "C18.keytype", name, f"b[{bad!r}] raised {e!r} instead of TypeError", case, seed))
-                # membership supports labels and item objects only: every other key type (positions included) is refused
-                for bad in (0, 1, -1, len(items), 1.5, None, (1,), b"a", True):
-                    try:
-                        r = bad in b
-                        fails.append(_f("C18", "C18.keytype", name, f"`{bad!r} in b` returned {r} instead of raising TypeError", case, seed))
-                    except TypeError:
-                        pass
-                    except Exception as e:
-                        fails.append(_f("C18", "C18.keytype", name, f"`{bad!r} in b` raised {e!r} instead of TypeError", case, seed))
-                for x in items:
-                    if x not in b:
-                        fails.append(_f("C18", "C18.contains_item", name, "an item of the block is reported as not contained", case, seed))
-            except Exception as e:
-                fails.append(_f("C18", "C18.exception", name, f"unexpected {e!r}", case, seed))
-            if _snapshot(name, b) != before or list(getattr(b, LOOKUP[name][0])) != items:
-                fails.append(_f("C18", "C18.frame", name, "a lookup operation changed the block", case, seed))
-    return dict(what="lookup coherence on real blocks", cases=n, label="bounded", bound="4 block types x 8 label multisets x all keys"), fails
+            fails += _coherence(name, b, labels, case, seed)
+            # a twin with equal content (lookups on it return ITS items, whatever was looked up on the first block before)
+            n += 1
+            twin = copy.deepcopy(b)
+            fails += _coherence(name, twin, labels, dict(case, phase="equal twin"), seed, "on an equal copy of a block that was queried before")
+            fails += _coherence(name, b, labels, dict(case, phase="after twin"), seed, "after an equal copy was queried")
+            # the block changes through its public interface between queries: answers follow the current content
+            lst = getattr(b, LOOKUP[name][0])
+            for step in ("relabel", "drop", "empty", "refill"):
+                n += 1
+                try:
+                    if step == "relabel" and len(lst):
+                        k = rng.randrange(len(lst))
+                        lst[k].label = lst[k].label + "'" if len(lst[k].label) < 200 else "q"
+                    elif step == "drop" and len(lst):
+                        if name == "EMG":
+                            b.removeSignal(lst[0].label)
+                        elif name == "Events":
+                            del b.events[0]
+                        else:
+                            b.tracks = list(lst)[1:]
+                    elif step == "empty":
+                        if name == "EMG":
+                            for lab in [x.label for x in list(lst)]:
+                                if lab in b:
+                                    b.removeSignal(lab)
+                        elif name == "Events":
+                            b.events = []
+                        else:
+                            b.tracks = []
+                    elif step == "refill":
+                        for l in labels[:2]:
+                            if name == "Data3D":
+                                b.add_track(gen.marker_track(rng, 4, lab=l))
+                            elif name == "ForceTorque3D":
+                                b.add_track(gen.ft_track(rng, 4, lab=l))
+                            elif name == "EMG":
+                                b.addSignal(gen.emg_track(rng, 4, lab=l))
+                            else:
+                                b.events.append(gen.event(rng))
+                except Exception as e:
+                    fails.append(_f("C18", "C18.exception", name, f"{step} through the public interface raised {e!r}", dict(case, phase=step), seed))
+                    break
+                lst = getattr(b, LOOKUP[name][0])
+                fails += _coherence(name, b, labels, dict(case, phase=step), seed, f"after '{step}' through the public interface")
+            if len(fails) > 12:
+                return dict(what="lookup coherence on real blocks", cases=n, label="bounded", bound="stopped early"), fails
+    return dict(what="lookup coherence on real blocks", cases=n, label="bounded",
+                bound="4 block types x 8 label multisets x all keys; on equal twins; after relabel / drop / empty / refill through the public interface; EMG channels in any order"), fails
 
 
 # ------------------------------------------------------------------------------------------------ C16
@@ -175,12 +231,12 @@ def check_c16(seed, tier):
     mk = {"Data3D": (lambda nf, k: gen.data3d(rng, k, nf), lambda nf: gen.marker_track(rng, nf), "add_track", "_tracks"),
           "ForceTorque3D": (lambda nf, k: gen.ft3d(rng, k, nf), lambda nf: gen.ft_track(rng, nf), "add_track", "_tracks"),
           "EMG": (lambda nf, k: gen.emg(rng, k, nf), lambda nf: gen.emg_track(rng, nf), "addSignal", "_signals")}
-    junk = [None, 5, "track", object(), [1, 2], np.zeros((3, 3))]
+    junk = [None, 5, "track", object(), [1, 2], np.zeros((3, 3)), 0, "", [], {}, False]
     for name, (mkb, mkt, add, fld) in mk.items():
         for nf in (0, 1, 3):
             for k in (0, 2):
                 # single add: right length, wrong length, wrong kind
-                for what in ["ok", "short", "long"] + list(range(len(junk))) + ["othertrack"]:
+                for what in ["ok", "short", "long", "regrown"] + list(range(len(junk))) + ["othertrack"]:
                     b = mkb(nf, k)
                     twin = copy.deepcopy(b)
                     case = dict(block=name, frames=nf, prior=k, add=str(what))
@@ -191,6 +247,14 @@ def check_c16(seed, tier):
                         x = mkt(nf + 1) if nf <= 1 else mkt(nf - 1)
                     elif what == "long":
                         x = mkt(nf + 2)
+                    elif what == "regrown":
+                        # built with the right length, then its arrays replaced by longer ones (attribute assignment): the
+                        # track now HAS another number of frames, whatever it had when it was constructed
+                        x = mkt(nf)
+                        longer = mkt(nf + 3)
+                        for attr, val in vars(longer).items():
+                            if isinstance(val, np.ndarray) and hasattr(x, attr):
+                                setattr(x, attr, val)
                     elif what == "othertrack":
                         x = gen.emg_track(rng, nf) if name != "EMG" else gen.marker_track(rng, nf)
                     else:
@@ -217,7 +281,7 @@ def check_c16(seed, tier):
                 # list assignment: every position of one invalid element
                 for L in (0, 1, 3):
                     for badpos in [None] + list(range(L)):
-                        for badkind in (["short", "junk", "othertrack", "twin"] if badpos is not None else ["-"]):
+                        for badkind in (["short", "junk", "othertrack", "twin", "None", "zero", "empty str", "empty list", "empty dict"] if badpos is not None else ["-"]):
                             b = mkb(nf, k)
                             old_list = getattr(b, fld)
                             old_items = list(old_list)
@@ -234,6 +298,8 @@ def check_c16(seed, tier):
                                 rows = nf + 1 if nf == 1 else 1
                                 twin_t = type(t0)(t0.label, *[np.full((rows,) + a.shape[1:], 1.5, dtype=a.dtype) for a in arrs])
                                 vals[badpos] = twin_t
+                            elif badkind in ("None", "zero", "empty str", "empty list", "empty dict"):
+                                vals[badpos] = {"None": None, "zero": 0, "empty str": "", "empty list": [], "empty dict": {}}[badkind]
                             elif badpos is not None:
                                 vals[badpos] = mkt(nf + 1) if badkind == "short" else ("junk" if badkind == "junk" else gen.emg_track(rng, nf))
                             case = dict(block=name, frames=nf, prior=k, assign=L, badpos=badpos, badkind=badkind)
@@ -355,6 +421,22 @@ def check_c20(seed, tier):
                 shared = _shared_mutables(r1, r2)
                 if shared:
                     fails.append(_f("C20", "C20.decode_shared", name, f"two decodes of the same bytes share mutable state: {shared[:3]}", case, seed))
+                if name in LOOKUP:
+                    # what a lookup on one decode hands out belongs to that decode (whatever was looked up on the other before)
+                    own1, own2 = list(getattr(r1, LOOKUP[name][0])), list(getattr(r2, LOOKUP[name][0]))
+                    for x in own1:
+                        try:
+                            g1 = r1[x.label]
+                            g2 = r2[x.label]
+                        except Exception as e:
+                            fails.append(_f("C20", "C20.exception", name, f"label lookup on a decoded block raised {e!r}", case, seed))
+                            break
+                        if not any(g1 is y for y in own1) or not any(g2 is y for y in own2):
+                            fails.append(_f("C20", "C20.decode_shared", name, f"label lookup {x.label!r} on one decode returned an item of the other decode", case, seed))
+                            break
+                    shared = _shared_mutables(r1, r2)
+                    if shared:
+                        fails.append(_f("C20", "C20.decode_shared", name, f"after label lookups two decodes of the same bytes share mutable state: {shared[:3]}", case, seed))
                 s2, w2 = _snapshot(name, r2), real_write(name, r2)
                 edits.edit_in_place(name, r1, r_)
                 mutate_ = makers[name][1]
